@@ -353,7 +353,13 @@ class Gen:
                 opts += [(3, 'slice')]
         if self.p.comprehension:
             opts.append((2, 'comp-range'))
+        opts.append((2, 'range-list'))
         k = ch.weighted(opts)
+        if k == 'range-list':       # a bare range(...) is a fresh list every time it is evaluated
+            n = ch.int(1, 4)
+            self.features.add('range')
+            self.features.add('range-list')
+            return (f'range({n})', n) if ch.int(0, 2) else (f'range(1, {n + 1})', n)
         if k == 'literal':
             n = ch.int(0, 4)
             return '[' + ', '.join(self.expr_R(fn, max(0, d - 1)) for _ in range(n)) + ']', n
